@@ -280,4 +280,188 @@ theorem inverse_roundtrip_laplace (h : StdNormal Φ Φinv) (loc : ℝ) {scale : 
         linarith
     rw [quantile_laplace_cl h loc scale hF0 hF1, laplaceQuantile_cdf, hz]; field_simp; ring
 
+/-- the Jacobian branch of `LaplaceOperator.apply` (`scale·where(y > ½, 1/(1−y), 1/y)·φ(x)` with `y = Φ(x)`) is the
+    derivative of its value — also at `Φ(x) = ½`, where the two branches of the quantile function meet with equal slope -/
+theorem laplace_jacobian (h : StdNormal Φ Φinv) {φ : ℝ → ℝ} (loc scale x : ℝ) (hd : HasDerivAt Φ (φ x) x) :
+    HasDerivAt (laplaceCl Φ loc scale) (laplaceClJac Φ φ scale x) x := by
+  have e : (0.5 : ℝ) = 1 / 2 := by norm_num
+  -- derivative of SciPy's Laplace quantile at `q ∈ (0,1)`
+  have hq : ∀ q : ℝ, 0 < q → q < 1 →
+      HasDerivAt scipyLaplacePpf (if (1 / 2 : ℝ) < q then 1 / (1 - q) else 1 / q) q := by
+    intro q q0 q1
+    have hL : HasDerivAt (fun t : ℝ => log (2 * t)) (1 / q) q := by
+      have h2 := ((hasDerivAt_id' q).const_mul 2).log (mul_pos two_pos q0).ne'
+      have e3 : 2 * 1 / (2 * q) = 1 / q := by
+        rw [mul_one, ← mul_one (2 : ℝ), mul_assoc, one_mul, mul_div_mul_left _ _ (two_ne_zero)]
+      rw [e3] at h2; exact h2
+    have hR : HasDerivAt (fun t : ℝ => -log (2 * (1 - t))) (1 / (1 - q)) q := by
+      have h1 : HasDerivAt (fun t : ℝ => 2 * (1 - t)) (2 * (0 - 1)) q :=
+        ((hasDerivAt_const q (1 : ℝ)).sub (hasDerivAt_id' q)).const_mul 2
+      have h2 := (h1.log (mul_pos two_pos (sub_pos.mpr q1)).ne').neg
+      have e3 : -(2 * (0 - 1) / (2 * (1 - q))) = 1 / (1 - q) := by
+        rw [zero_sub, mul_neg, mul_one, neg_div, neg_neg, ← mul_one (2 : ℝ), mul_assoc, one_mul,
+          mul_div_mul_left _ _ (two_ne_zero)]
+      rw [e3] at h2; exact h2
+    rcases lt_trichotomy q (1 / 2) with hlt | heq | hgt
+    · simp only [not_lt.mpr hlt.le, if_false]
+      refine hL.congr_of_eventuallyEq ?_
+      filter_upwards [Iio_mem_nhds hlt] with t ht
+      simp only [scipyLaplacePpf, e, TranscReal.log_eq, not_lt.mpr (le_of_lt (Set.mem_Iio.mp ht)), if_false]
+    · subst heq
+      simp only [lt_irrefl, if_false]
+      -- glue the two one-sided derivatives (both equal `2`)
+      have hR' : HasDerivAt (fun t : ℝ => -log (2 * (1 - t))) (1 / (1 / 2 : ℝ)) (1 / 2) := by
+        convert hR using 1; norm_num
+      have hl : HasDerivWithinAt scipyLaplacePpf (1 / (1 / 2 : ℝ)) (Set.Iic (1 / 2)) (1 / 2) := by
+        refine hL.hasDerivWithinAt.congr ?_ ?_
+        · intro t ht
+          simp only [scipyLaplacePpf, e, TranscReal.log_eq, not_lt.mpr (Set.mem_Iic.mp ht), if_false]
+        · simp only [scipyLaplacePpf, e, TranscReal.log_eq, lt_irrefl, if_false]
+      have hr : HasDerivWithinAt scipyLaplacePpf (1 / (1 / 2 : ℝ)) (Set.Ici (1 / 2)) (1 / 2) := by
+        refine hR'.hasDerivWithinAt.congr ?_ ?_
+        · intro t ht
+          rcases eq_or_lt_of_le (Set.mem_Ici.mp ht) with heq | hlt
+          · subst heq; simp only [scipyLaplacePpf, e, TranscReal.log_eq, lt_irrefl, if_false]; norm_num
+          · simp only [scipyLaplacePpf, e, TranscReal.log_eq, hlt, if_true]
+        · simp only [scipyLaplacePpf, e, TranscReal.log_eq, lt_irrefl, if_false]; norm_num
+      have := hl.union hr
+      rwa [Set.Iic_union_Ici, hasDerivWithinAt_univ] at this
+    · simp only [hgt, if_true]
+      refine hR.congr_of_eventuallyEq ?_
+      filter_upwards [Ioi_mem_nhds hgt] with t ht
+      simp only [scipyLaplacePpf, e, TranscReal.log_eq, Set.mem_Ioi.mp ht, if_true]
+  have hcomp := (hq (Φ x) (h.pos x) (h.lt_one x)).comp x hd
+  have := (hcomp.const_mul scale).const_add loc
+  have hfun : laplaceCl Φ loc scale = fun x => loc + scale * (scipyLaplacePpf ∘ Φ) x := rfl
+  have hval : laplaceClJac Φ φ scale x
+      = scale * ((if (1 / 2 : ℝ) < Φ x then 1 / (1 - Φ x) else 1 / Φ x) * φ x) := by
+    simp only [laplaceClJac, e]; ring
+  rw [hfun, hval]; exact this
+
+/-! ## classic parameter conversions (`InverseGammaOperator(mode, mean)`, `GammaOperator(mean, var)`) -/
+
+/-- for `0 < mode < mean` the computed `(α, q)` have `α > 1` and reproduce the documented mode `q/(α+1)` and mean `q/(α−1)`
+    of the inverse-gamma distribution -/
+theorem invgamma_mode_mean_spec {mode mean : ℝ} (h0 : 0 < mode) (h1 : mode < mean) :
+    ∃ α q, invGammaFromModeMean mode mean = some (α, q) ∧ 1 < α ∧ q / (α + 1) = mode ∧ q / (α - 1) = mean := by
+  have hr : 0 < mean / mode - 1 := by rw [sub_pos, one_lt_div h0]; exact h1
+  refine ⟨2 / (mean / mode - 1) + 1, mode * (2 / (mean / mode - 1) + 1 + 1), ?_, ?_, ?_, ?_⟩
+  · simp only [invGammaFromModeMean, not_lt.mpr h1.le, if_false]
+  · have : 0 < 2 / (mean / mode - 1) := by positivity
+    linarith
+  · have : 0 < 2 / (mean / mode - 1) := by positivity
+    have hpos : 0 < 2 / (mean / mode - 1) + 1 + 1 := by linarith
+    rw [mul_div_assoc, div_self hpos.ne', mul_one]
+  · have hm : mean - mode ≠ 0 := by linarith
+    have hmo : mode ≠ 0 := h0.ne'
+    have : mean / mode - 1 = (mean - mode) / mode := by field_simp
+    rw [this]; field_simp; ring
+
+/-- the documented `ValueError` for `mean < mode` -/
+theorem invgamma_mode_mean_rejects {mode mean : ℝ} (h : mean < mode) : invGammaFromModeMean mode mean = none := by
+  simp only [invGammaFromModeMean, h, if_true]
+
+/-- for `mean, var > 0` the computed `(α, θ)` reproduce the gamma distribution's mean `αθ` and variance `αθ²` -/
+theorem gamma_mean_var_spec {mean var : ℝ} (hm : 0 < mean) (hv : 0 < var) :
+    let p := gammaFromMeanVar mean var
+    0 < p.1 ∧ 0 < p.2 ∧ p.1 * p.2 = mean ∧ p.1 * p.2 ^ 2 = var := by
+  simp only [gammaFromMeanVar]
+  refine ⟨by positivity, by positivity, ?_, ?_⟩ <;> field_simp
+
+/-! ## interpolation (`jnp.interp` inside `interpolator`, `invgamma_prior`, `invgamma_invprior`) -/
+
+section Interp
+variable {K : Type} [Field K] [LinearOrder K] [IsStrictOrderedRing K]
+
+/-- piecewise-linear interpolation of an increasing table over a strictly increasing grid is monotone on the whole line
+    (all table lengths) -/
+theorem interp_monotone (n0 : K × K) (rest : List (K × K)) (hinc : Inc n0 rest) :
+    Monotone fun x => interp x n0 rest := by
+  intro x x' hxx
+  simp only [interp]
+  by_cases ha : x < n0.1
+  · by_cases hb : x' < n0.1
+    · simp only [ha, hb, if_true]; exact le_refl _
+    · simp only [ha, hb, if_true, if_false]
+      exact interpFrom_ge x' n0.1 n0.2 rest hinc (not_lt.mp hb)
+  · have hb : ¬ x' < n0.1 := fun hlt => ha (lt_of_le_of_lt hxx hlt)
+    simp only [ha, hb, if_false]
+    exact interpFrom_mono hxx n0.1 n0.2 rest hinc (not_lt.mp ha)
+
+/-- … and strictly increasing between the first and the last grid point when the table is strictly increasing -/
+theorem interp_strictMono (n0 : K × K) (rest : List (K × K)) (hinc : StrictInc n0 rest) {x x' : K}
+    (h0 : n0.1 ≤ x) (hxx : x < x') (h1 : x' ≤ (lastNode n0 rest).1) : interp x n0 rest < interp x' n0 rest := by
+  have ha : ¬ x < n0.1 := not_lt.mpr h0
+  have hb : ¬ x' < n0.1 := not_lt.mpr (le_trans h0 hxx.le)
+  simp only [interp, ha, hb, if_false]
+  exact interpFrom_strictMono hxx n0.1 n0.2 rest hinc h0 h1
+
+/-- exact at the nodes: at the first grid point, and at the right one of any two neighbouring nodes (hence at every node) -/
+theorem interp_nodes (n0 : K × K) (rest : List (K × K)) (hinc : Inc n0 rest) :
+    interp n0.1 n0 rest = n0.2 ∧ ∀ a b, Neighbours a b n0 rest → interp b.1 n0 rest = b.2 := by
+  constructor
+  · simp only [interp, lt_irrefl, if_false]; exact interpFrom_left _ _ rest hinc
+  · intro a b hn
+    have hge : n0.1 ≤ a.1 := neighbours_left_ge n0 rest hinc hn
+    have hlt := (neighbours_inc n0 rest hinc hn).1
+    have : ¬ b.1 < n0.1 := not_lt.mpr (le_trans hge hlt.le)
+    simp only [interp, this, if_false]
+    exact interpFrom_right_node n0.1 n0.2 rest hinc hn
+
+/-- between neighbouring nodes `a, b` the interpolant is the chord, and lies between the two node values -/
+theorem interp_between (n0 : K × K) (rest : List (K × K)) (hinc : Inc n0 rest) {a b : K × K}
+    (hn : Neighbours a b n0 rest) {x : K} (hax : a.1 ≤ x) (hxb : x ≤ b.1) :
+    a.2 ≤ interp x n0 rest ∧ interp x n0 rest ≤ b.2 := by
+  obtain ⟨hlt, hle⟩ := neighbours_inc n0 rest hinc hn
+  have hge : n0.1 ≤ a.1 := neighbours_left_ge n0 rest hinc hn
+  rcases eq_or_lt_of_le hxb with heq | hxb'
+  · subst heq; rw [(interp_nodes n0 rest hinc).2 a b hn]; exact ⟨hle, le_refl _⟩
+  · have : ¬ x < n0.1 := not_lt.mpr (le_trans hge hax)
+    simp only [interp, this, if_false]
+    rw [interpFrom_neighbours n0.1 n0.2 rest hinc hn hax hxb']
+    exact piece_bounds hlt hle hax hxb'.le
+
+/-- outside the grid the value is clamped: first table entry on the left, never above the last entry on the right -/
+theorem interp_range (n0 : K × K) (rest : List (K × K)) (hinc : Inc n0 rest) (x : K) :
+    n0.2 ≤ interp x n0 rest ∧ interp x n0 rest ≤ (lastNode n0 rest).2 := by
+  simp only [interp]
+  by_cases ha : x < n0.1
+  · simp only [ha, if_true]
+    have h1 := interpFrom_ge n0.1 n0.1 n0.2 rest hinc (le_refl _)
+    have h2 := interpFrom_le_last n0.1 n0.1 n0.2 rest hinc (le_refl _)
+    exact ⟨le_refl _, le_trans h1 h2⟩
+  · simp only [ha, if_false]
+    exact ⟨interpFrom_ge x n0.1 n0.2 rest hinc (not_lt.mp ha), interpFrom_le_last x n0.1 n0.2 rest hinc (not_lt.mp ha)⟩
+
+example : interp (3 / 2 : ℚ) (0, 0) [(1, 10), (2, 30)] = 20 := by norm_num [interp, interpFrom]
+example : Inc ((0 : ℚ), (0 : ℚ)) [(1, 10), (2, 30)] := by norm_num [Inc]
+
+end Interp
+
+/-- `invgamma_prior` (JAX; table of `log(g(xs))`, `g = Q_invgamma ∘ Φ > 0` increasing on the grid, `scale > 0`):
+    the transform is monotone, between neighbouring grid points `a.1 ≤ x ≤ b.1` it lies between `scale·g(a.1)` and
+    `scale·g(b.1)` — so it differs from the exact `scale·g(x)` by at most one table step `scale·(g(b.1) − g(a.1))` -/
+theorem invgamma_monotone_and_step_error {g : ℝ → ℝ} (hgpos : ∀ x, 0 < g x) (hgmono : Monotone g) {scale : ℝ}
+    (hs : 0 < scale) (x0 : ℝ) (xs : List ℝ)
+    (hinc : Inc (x0, log (g x0)) (mkTable (fun t => log (g t)) xs)) :
+    Monotone (fun x => invgammaRe true scale x (x0, log (g x0)) (mkTable (fun t => log (g t)) xs)) ∧
+    ∀ a b : ℝ × ℝ, Neighbours a b (x0, log (g x0)) (mkTable (fun t => log (g t)) xs) →
+      a.2 = log (g a.1) → b.2 = log (g b.1) → ∀ x, a.1 ≤ x → x ≤ b.1 →
+      |invgammaRe true scale x (x0, log (g x0)) (mkTable (fun t => log (g t)) xs) - g x * scale|
+        ≤ (g b.1 - g a.1) * scale := by
+  constructor
+  · intro x x' hxx
+    simp only [invgammaRe, interpolatorApply, if_true, TranscReal.exp_eq]
+    exact mul_le_mul_of_nonneg_right (exp_le_exp.mpr (interp_monotone _ _ hinc hxx)) hs.le
+  · intro a b hn ha hb x hax hxb
+    obtain ⟨h1, h2⟩ := interp_between _ _ hinc hn hax hxb
+    rw [ha] at h1; rw [hb] at h2
+    have e1 := exp_le_exp.mpr h1
+    have e2 := exp_le_exp.mpr h2
+    rw [exp_log (hgpos _)] at e1 e2
+    have g1 := hgmono hax
+    have g2 := hgmono hxb
+    simp only [invgammaRe, interpolatorApply, if_true, TranscReal.exp_eq]
+    rw [abs_le]; constructor <;> nlinarith
+
 end NiftyVerif.C30
